@@ -30,7 +30,9 @@ def free_port():
 class Pool:
     """`start_cluster(dir, cores, host, port)` in its own process group."""
 
-    def __init__(self, workdir, cores, port=None):
+    def __init__(self, workdir, cores, port=None, cwd=None):
+        """cwd: directory the pool is started from (a sub-directory of the project: gwf finds the project by
+        searching upwards)."""
         self.port = port or free_port()
         env = dict(os.environ)
         env["PYTHONPATH"] = os.environ.get("GWF_VERIF_SRC", "/repo/src")
@@ -43,7 +45,7 @@ class Pool:
             code = ("from gwf.backends.local import start_cluster; "
                     f"start_cluster({workdir!r}, {int(cores)}, '127.0.0.1', {self.port})")
             cmd = [PY, "-c", code]
-        self.proc = subprocess.Popen(cmd, cwd=workdir, env=env, stdout=subprocess.DEVNULL,
+        self.proc = subprocess.Popen(cmd, cwd=cwd or workdir, env=env, stdout=subprocess.DEVNULL,
                                      stderr=subprocess.DEVNULL, start_new_session=True)
         deadline = time.monotonic() + 20
         while time.monotonic() < deadline:
@@ -119,8 +121,20 @@ def real_case(draw, max_tasks=6):
             t["deps"] = [d for d in t["deps"] if d != 0 and d != len(tasks) - 1]
         tasks[0]["deps"] = []
         cancels = list(cancels) + [(0, draw(st.sampled_from([250, 400])))]
+    from . import gen
+
     return {"kind": "real", "cores": draw(st.sampled_from([1, 2, 2, 3])), "tasks": tasks,
-            "cancels": [list(c) for c in cancels], "second_wave": draw(st.booleans())}
+            "cancels": [list(c) for c in cancels], "second_wave": draw(st.booleans()),
+            "invoke": draw(gen.invoke(objs=False))}
+
+
+@st.composite
+def wide_case(draw):
+    """As many independent long tasks as workers; worker counts around and above the number of CPUs of the host."""
+    ncpu = os.cpu_count() or 2
+    cores = draw(st.sampled_from([ncpu + 2, ncpu + 1, ncpu, ncpu + 5, 5]))
+    return {"kind": "real", "wide": True, "cores": cores, "cancels": [], "second_wave": False,
+            "tasks": [{"deps": [], "rc": 0, "sleep_ms": 4000, "out_bytes": 0, "grandchild": False} for _ in range(cores)]}
 
 
 def pid_alive(pid):
@@ -139,8 +153,9 @@ def run_real(case):
         viols.append((prop, {"kind": kind, "tier": "real", **sig}, msg))
 
     tasks = case["tasks"]
-    names = [f"r{i}" for i in range(len(tasks))]
-    with project.Project({"targets": [], "files": {}}, backend="local") as proj:
+    # dots are legal in target names: every other task is named like a member of its predecessor's family
+    names = [f"r{i}" if i % 2 == 0 else f"r{i - 1}.m{i}" for i in range(len(tasks))]
+    with project.Project({"targets": [], "files": {}}, backend="local", invoke=case.get("invoke")) as proj:
         journal = proj.path("journal.txt")
         open(journal, "w").close()
         targets = []
@@ -149,7 +164,7 @@ def run_real(case):
                             "outputs": [f"{names[i]}.out"], "spec": task_spec(names[i], t, journal), "wd": None})
         desc = {"targets": targets, "files": {}}
         proj.write_desc(desc)
-        pool = Pool(proj.dir, case["cores"])
+        pool = Pool(proj.dir, case["cores"], cwd=proj.pool_cwd())
         try:
             proj.write_config({"backend": "local", "backend.local.port": pool.port, "backend.local.host": "127.0.0.1"})
             first = names if not case["second_wave"] else names[: max(1, len(names) // 2)]
@@ -232,6 +247,16 @@ def run_real(case):
                 peak = max(peak, live)
             if peak > case["cores"]:
                 v("C12", "too-many-live", f"{peak} task processes were alive at once on {case['cores']} worker(s)")
+            if case.get("wide"):
+                # as many independent long tasks as workers, submitted together: none of them has to wait for a core,
+                # so every one starts before the first one ends
+                labels.add("more-workers-than-cpus" if case["cores"] > (os.cpu_count() or 1) else "as-many-tasks-as-workers")
+                if len(end) == len(names) and len(start) == len(names):
+                    late = sorted(n for n in names if start[n] > min(end.values()))
+                    if late:
+                        v("C12", "idle-worker", f"pool of {case['cores']} workers, {len(names)} independent tasks of "
+                          f"{tasks[0]['sleep_ms']} ms submitted by one `gwf run`: {late} only started after another task had "
+                          f"ended (most alive at once: {peak})")
             if not submissions:
                 # the wording of gwf's progress messages is not part of any property: without them the
                 # number of submissions per target is unknown and the checks built on it are skipped
